@@ -32,12 +32,12 @@ def run(tier):
     ck.assumptions = ["format 2 mapping tables in IFT.tla, format 1 glyph / feature maps in IFT1.tla",
                       "two design-space axes for glyph keyed entries and definitions (MC_IFTEnumAx, random tables), one for invalidating entries (their intersection sizes are modelled on one axis); integer segment end points, <= 8 code point atoms, <= 3 feature tags",
                       "IFT specification text as transcribed in spec/ift/IFT.tla",
-                      "a URI names one resource: all entries carrying a URI have the same patch format"]
+                      "a URI names one resource: all entries carrying a URI have the same patch format", "string ids (id string data) in the family MC_IFTEnumSid only; the extension-loop model uses numeric ids"]
     quick = tier == "quick"
     wd = vlib.workdir(PID)
     vlib.stage_specs(wd, "ift", "common")
     # (1) exhaustive family
-    for mod in ["MC_IFTEnumQuick" if quick else "MC_IFTEnum", "MC_IFTEnumDup", "MC_IFTEnumAx"]:
+    for mod in ["MC_IFTEnumQuick" if quick else "MC_IFTEnum", "MC_IFTEnumDup", "MC_IFTEnumAx", "MC_IFTEnumSid"]:
         r = vlib.run_tlc(wd, mod, workers=8 if quick else 14, timeout=3400)
         ck.add_tlc("tlc:" + mod, r)
         if not r.ok:
